@@ -303,6 +303,15 @@ REAL_SCRIPTS = {
     "slow-length-beyond-keepalive": (1, [("/slowcl/1.6", "1.1", None, 0), ("/ok", "1.1", None, 0)]),
     "http10-keepalive-undelimited": (2, [("/slowstream/0", "1.0", "keep-alive", 0), ("/ok", "1.1", None, 0)]),
     "http10-keepalive-then-file": (2, [("/ok", "1.0", "keep-alive", 0), ("/file/70000", "1.0", "keep-alive", 0)]),
+    # a file far larger than any socket buffer, read by a client that starts late: the transfer goes through many partial sends
+    "huge-file-slow-reader": (2, [("/file/12582912", "1.1", None, 0.5), ("/ok", "1.1", None, 0)]),
+    # the same over TCP with a small receive buffer and odd read sizes: the server's sends are cut short all the time
+    "huge-file-trickling-reader": (2, [("/file/4194304", "1.1", None, 0.5), ("/ok", "1.1", None, 0)], {"bind": "tcp", "rcvbuf": 4096, "odd_reads": True}),
+    "big-body-trickling-reader": (2, [("/big/3000000", "1.1", None, 0.3), ("/ok", "1.1", None, 0)], {"bind": "tcp", "rcvbuf": 4096, "odd_reads": True}),
+    "pipe-file": (2, [("/pipefile/50000", "1.1", None, 0), ("/ok", "1.1", None, 0)]),
+    # the client stays connected and silent after a complete exchange: when the keep-alive time is over the server closes -
+    # without writing anything
+    "idle-past-keepalive": (1, [("/ok", "1.1", None, 0), (None, None, None, 2.2)]),
 }
 REAL_WORKERS = ("sync", "gthread", "gevent", "eventlet")
 
@@ -310,6 +319,8 @@ REAL_WORKERS = ("sync", "gthread", "gevent", "eventlet")
 def _expected_real_body(path):
     if path.startswith("/file/"):
         return b"F" * int(path[6:])
+    if path.startswith("/pipefile/"):
+        return b"P" * int(path[10:])
     if path.startswith("/big/"):
         return b"B" * int(path[5:])
     if path.startswith("/slow"):
@@ -317,10 +328,30 @@ def _expected_real_body(path):
     return b"ok"
 
 
-def _read_until(c, wire, nresp, deadline):
+def _read_until(c, wire, nresp, deadline, odd=False):
     """Read until nresp complete responses are on the wire, EOF, or the deadline."""
     eof = False
+    k = 0
     while True:
+        k += 1
+        if odd and len(wire) > 100000 and k % 64:
+            # trickle: small odd-sized reads without re-parsing every time
+            try:
+                c.settimeout(2.0)
+                d = c.recv(3001 if k % 2 else 7013)
+            except socket.timeout:
+                d = None
+            except OSError:
+                return wire, True
+            if d is not None:
+                if not d:
+                    eof = True
+                else:
+                    wire += d
+                    if k % 8 == 0:
+                        time.sleep(0.001)
+                    if time.time() < deadline:
+                        continue
         resps, _p = rfc_response.read_all(wire, [b"GET"] * 8, eof)
         if eof or sum(1 for r in resps if r.complete) >= nresp:
             return wire, eof
@@ -342,8 +373,19 @@ def _read_until(c, wire, nresp, deadline):
 def real_cell(cell):
     from vlib import realproc
     wc, script = cell
-    keepalive, reqs = REAL_SCRIPTS[script]
-    srv = realproc.Server(worker_class=wc, workers=1, bind="unix", keepalive=keepalive, threads=2 if wc == "gthread" else None,
+    keepalive, reqs = REAL_SCRIPTS[script][:2]
+    opts = REAL_SCRIPTS[script][2] if len(REAL_SCRIPTS[script]) > 2 else {}
+    odd = bool(opts.get("odd_reads"))
+
+    def connect():
+        if opts.get("rcvbuf"):
+            c_ = socket.socket()
+            c_.setsockopt(socket.SOL_SOCKET, socket.SO_RCVBUF, opts["rcvbuf"])
+            c_.settimeout(10.0)
+            c_.connect(("127.0.0.1", srv.port))
+            return c_
+        return srv.connect(timeout=10.0)
+    srv = realproc.Server(worker_class=wc, workers=1, bind=opts.get("bind", "unix"), keepalive=keepalive, threads=2 if wc == "gthread" else None,
                           timeout=30, graceful_timeout=2)
     try:
         if not srv.start():
@@ -353,6 +395,19 @@ def real_cell(cell):
         nresp = 0
         may_continue = False
         for i, (path, ver, conn, pause) in enumerate(reqs):
+            if path is None:
+                # nothing is sent for `pause` seconds: whatever arrives now was not asked for
+                if c is None or not may_continue:
+                    continue
+                wire, eof = _read_until(c, wire, nresp + 1, time.time() + pause)
+                resps, probs = rfc_response.read_all(wire, [b"GET"] * 8, eof)
+                if len(resps) > nresp or probs or len(wire) > (resps[-1].end if resps else 0):
+                    return ("unsolicited-bytes", "after %d complete exchange(s) and %.1f s of silence (keepalive %d s) the server wrote %r" % (
+                        nresp, pause, keepalive, wire[(resps[nresp - 1].end if nresp else 0):][:80]))
+                if not eof:
+                    return ("idle-connection-not-closed", "keepalive %d s, the connection is still open after %.1f s of silence" % (keepalive, pause))
+                may_continue = False
+                continue
             if c is None or not may_continue:
                 if c is not None:
                     # the server said it would close: it must, and nothing may follow the last response
@@ -365,7 +420,7 @@ def real_cell(cell):
                         return ("not-closed-after-announcing-close", "request %d %s: response announced the end of the connection "
                                 "but it is still open after 3 s" % (i - 1, reqs[i - 1][0]))
                     c.close()
-                c = srv.connect(timeout=10.0)
+                c = connect()
                 wire = b""
                 nresp = 0
             head = "GET %s HTTP/%s\r\nHost: h\r\n" % (path, ver)
@@ -377,7 +432,7 @@ def real_cell(cell):
                 return ("request-not-accepted", "request %d %s on a connection announced as persistent: %s" % (i, path, e))
             if pause:
                 time.sleep(pause)
-            wire, eof = _read_until(c, wire, nresp + 1, time.time() + 12.0)
+            wire, eof = _read_until(c, wire, nresp + 1, time.time() + (25.0 if odd else 12.0), odd=odd)
             resps, probs = rfc_response.read_all(wire, [b"GET"] * 8, eof)
             if len(resps) <= nresp:
                 return ("no-response", "request %d %s: no response (eof=%s, connection had %d earlier responses)" % (i, path, eof, nresp))
